@@ -1,4 +1,4 @@
-\* generated by mkaggcfg.py - C13: crash points, DB loss, restarts (repaired reconciliation)
+\* generated by mkaggcfg.py - aggchain-prover flow: same-range retries, prover-capped ranges, empty certificates
 CONSTANTS
   MaxBlocks = 3
   MaxBridges = 1
@@ -7,16 +7,14 @@ CONSTANTS
   RetryImm = TRUE
   MaxCertBlocks = 0
   CallFailures = TRUE
-  Crashes = {"before_submit", "after_submit", "after_store"}
+  Crashes = {}
   StoreFaults = FALSE
-  LoseDB = TRUE
+  LoseDB = FALSE
   HeaderHasPrev = TRUE
   FixedF4 = "v2"
-  Mode = "pp"
+  Mode = "fep"
 INIT Init
 NEXT Next
 VIEW view
 INVARIANT C02
-INVARIANT F4Free
-INVARIANT NeverRefuses
 CHECK_DEADLOCK FALSE
